@@ -281,3 +281,78 @@ def BLS_IFACE_RAISES(s):
     backed by the proofs of all overrides): TypeError iff the receiver is a ServiceType.  specs/c13_types.py and
     specs/c18.py restate projections of that contract through this function."""
     return ISINST(s.self, "ServiceType")
+
+
+# ------------------------------------------------------------------------------------------------ effects: no hidden state
+def no_hidden_state_check(module_names, what):
+    """Builds an EXTRA_CHECKS entry: effect obligations decided on the ASTs of the named repository modules (complete for
+    what they state, re-derived from the current sources on every run).  Every function / method defined there keeps no
+    state between calls other than fields of the objects it is given:
+      no-decorator     its `def` carries only structural decorators (property, staticmethod, classmethod, abstractmethod,
+                       setters) or decorators defined in the same repository module (ordinary code that the engine executes);
+                       a memoising / wrapping decorator from a library - functools.lru_cache, functools.cache - makes results
+                       depend on earlier calls and on `==` / `hash` of the arguments instead of the argument objects, and
+                       the engine, which inlines helper bodies, would not see it.  Parameterless functions are exempt (a
+                       cached constant).
+      no-module-state  no `global` / `nonlocal` statement, no store into (attribute, item, augmented assignment) and no
+                       mutating method call (append, add, update, setdefault, pop, ...) on a module-level name."""
+    STRUCTURAL = {"property", "staticmethod", "classmethod", "abc.abstractmethod", "abstractmethod", "typing.overload",
+                  "typing.no_type_check"}
+    MUTATORS = {"append", "add", "update", "setdefault", "pop", "popitem", "clear", "extend", "insert", "remove", "discard",
+                "__setitem__", "__delitem__", "sort", "reverse", "cache_clear"}
+
+    def check(eng, tier, seed):
+        import ast
+
+        obs = []
+        for mn in module_names:
+            mod = eng.repo.modules.get(mn)
+            short_m = mn.replace("pydsdl.", "")
+            if mod is None:
+                obs.append({"name": "%s/effect#module-found" % short_m, "ok": False, "function": mn, "detail": "module not found"})
+                continue
+            top_level = set(mod.assigns) | set(mod.functions) | set(mod.classes)
+            defined_here = {n.name for n in ast.walk(mod.tree) if isinstance(n, (ast.ClassDef, ast.FunctionDef))}
+            for q in sorted(eng.repo.functions):
+                fi = eng.repo.functions[q]
+                if fi.module is not mod or fi.outer is not None or not isinstance(fi.node, ast.FunctionDef) \
+                        or fi.name.startswith("_unittest"):
+                    continue
+                short = q.replace("pydsdl.", "")
+                nparams = len(fi.node.args.args) + len(fi.node.args.kwonlyargs) + len(fi.node.args.posonlyargs) \
+                    + (1 if fi.node.args.vararg else 0) + (1 if fi.node.args.kwarg else 0)
+
+                def own(d):
+                    root = d.split("(")[0].split(".")[0]
+                    return root in defined_here
+
+                extra = [d for d in fi.decorators if d not in STRUCTURAL and not d.endswith(".setter") and not own(d)]
+                if nparams == 0:
+                    extra = []
+                obs.append({"name": "%s/effect#no-decorator" % short, "ok": not extra, "function": q,
+                            "detail": "decorated with %s" % extra if extra else ""})
+                bad = []
+                local = {a.arg for a in fi.node.args.args + fi.node.args.kwonlyargs + fi.node.args.posonlyargs}
+                for node in ast.walk(fi.node):
+                    if isinstance(node, ast.Name) and isinstance(node.ctx, ast.Store):
+                        local.add(node.id)
+
+                def module_name(e):
+                    return isinstance(e, ast.Name) and e.id not in local and e.id in top_level
+
+                for node in ast.walk(fi.node):
+                    if isinstance(node, (ast.Global, ast.Nonlocal)) and node is not fi.node:
+                        bad.append("%s statement" % type(node).__name__.lower())
+                    if isinstance(node, (ast.Attribute, ast.Subscript)) and isinstance(node.ctx, (ast.Store, ast.Del)) \
+                            and module_name(node.value):
+                        bad.append("stores into module-level `%s`" % node.value.id)
+                    if isinstance(node, ast.Call) and isinstance(node.func, ast.Attribute) and node.func.attr in MUTATORS \
+                            and module_name(node.func.value):
+                        bad.append("calls %s() on module-level `%s`" % (node.func.attr, node.func.value.id))
+                obs.append({"name": "%s/effect#no-module-state" % short, "ok": not bad, "function": q,
+                            "detail": "; ".join(sorted(set(bad)))})
+        return {"check": "effects(no hidden state)", "name": "%s keep no state between calls (AST effects)" % what,
+                "obligations": obs}
+
+    check.__name__ = "no_hidden_state"
+    return check
